@@ -323,6 +323,12 @@ impl CelsData {
     }
 }
 """},
+        {"kind": "fn", "file": "cel", "name": "new", "key": "CelsData::new", "impl_of": "CelsData", "impl_filter": r"impl<P>\s+CelsData<P>", "impl_header": "CelsData", "ret": "r",
+         "closures": [{"after": ".resize_with(num_frames as usize,", "params": "", "ret": "row: Vec<Option<RawCel>>", "ensures": "row@.len() == 1 && row@[0] is None"}],
+         "ensures": ("        r.num_frames == num_frames, r.data@.len() == num_frames as int,\n"
+                     "        // one row per frame, each with a single empty slot\n"
+                     "        forall|f: int| 0 <= f < num_frames ==> (#[trigger] r.data@[f])@.len() == 1 && r.data@[f]@[0] is None,\n"
+                     "        forall|f: int, l: int| r.at(f, l) is None,")},
         {"kind": "fn", "file": "cel", "name": "check_valid_frame_id", "impl_of": "CelsData", "impl_filter": r"impl<P>\s+CelsData<P>", "impl_header": "CelsData", "ret": "r",
          "rules": ["R1", "R6", "R11"],
          "ensures": "        r is Ok <==> (frame_id as int) < self.data.len(),"},
@@ -330,7 +336,9 @@ impl CelsData {
          "rules": ["R1", "R6", "R11"], "sig_rewrites": [("RawCel<P>", "RawCel")],
          # closure contract spliced onto the real closure (annotation only)
          "closures": [{"after": ".resize_with(min_layers as usize,", "params": "", "ret": "e: Option<RawCel>", "ensures": "e is None"}],
-         "ensures": ("        final(self).data.len() == old(self).data.len(),\n"
+         "ensures": ("        final(self).data.len() == old(self).data.len(), final(self).num_frames == old(self).num_frames,\n"
+                     "        // rows never grow beyond the 65536 layer indices a cel can name (CelsData::validate relies on it)\n"
+                     "        (forall|f: int| 0 <= f < old(self).data.len() ==> (#[trigger] old(self).data[f]).len() <= 65536) ==> (forall|f: int| 0 <= f < final(self).data.len() ==> (#[trigger] final(self).data[f]).len() <= 65536),\n"
                      "        r is Ok <==> ((frame_id as int) < old(self).data.len() && old(self).at(frame_id as int, cel.data.layer_index as int) is None),\n"
                      "        r is Ok ==> final(self).at(frame_id as int, cel.data.layer_index as int) == Some(cel)\n"
                      "            && forall|f: int, l: int| !(f == frame_id && l == cel.data.layer_index) ==> #[trigger] final(self).at(f, l) == old(self).at(f, l),\n"
@@ -356,6 +364,10 @@ impl CelsData {
 #[verifier::external_body] pub struct TilesetsById { _p: core::marker::PhantomData<u8> }
 impl TilesetsById {
     #[verifier::external_body] pub fn add(&mut self, tileset: TilesetRaw) { unimplemented!() }
+    #[verifier::external_body] pub fn new() -> TilesetsById { unimplemented!() }
+}
+impl ExternalFilesById {
+    #[verifier::external_body] pub fn new() -> ExternalFilesById { unimplemented!() }
 }
 """},
         {"kind": "enum", "file": "file", "name": "PixelFormat", "attrs": "#[derive(Clone, Copy)]\n"},
@@ -419,6 +431,13 @@ pub open spec fn attach_post(o: &ParseInfo, n: &ParseInfo, ctx: UserDataContext,
     }
 }
 """},
+        {"kind": "fn", "file": "parse", "name": "new", "key": "ParseInfo::new", "impl_of": "ParseInfo", "ret": "r",
+         "body_rewrites": [("cel::CelsData::new(", "CelsData::new(")],
+         "ensures": ("        // the parser starts with one slot per frame (default duration, one empty cel row) and nothing else\n"
+                     "        r.frame_times@.len() == num_frames as int, forall|f: int| 0 <= f < num_frames ==> #[trigger] r.frame_times@[f] == default_frame_time,\n"
+                     "        r.framedata.num_frames == num_frames as u32, r.framedata.data@.len() == num_frames as int, forall|f: int, l: int| r.framedata.at(f, l) is None,\n"
+                     "        forall|f: int| 0 <= f < num_frames ==> (#[trigger] r.framedata.data@[f])@.len() == 1,\n"
+                     "        r.layers@.len() == 0, r.slices@.len() == 0, r.tags is None, r.palette is None, r.color_profile is None, r.sprite_user_data is None, r.user_data_context is None,")},
         {"kind": "fn", "file": "parse", "name": "add_layer", "impl_of": "ParseInfo",
          "requires": "        old(self).layers@.len() < u32::MAX,",
          "ensures": ("        final(self).frame_times@ == old(self).frame_times@, final(self).framedata.data.len() == old(self).framedata.data.len(),\n"
@@ -1586,6 +1605,51 @@ UNITS["validate"] = {
          "loop_ends": {
              1: "            proof { assert((frame as int) * (num_layers as int) + (num_layers as int) == (frame as int + 1) * (num_layers as int)) by (nonlinear_arith); }",
          }},
+        {"kind": "verbatim", "text": """
+/// opaque pass-through payloads of the validation stage
+#[verifier::external_body] pub struct ColorProfile { _p: core::marker::PhantomData<u8> }
+#[verifier::external_body] pub struct ExternalFilesById { _p: core::marker::PhantomData<u8> }
+#[verifier::external_body] pub struct Tag { _p: core::marker::PhantomData<u8> }
+#[verifier::external_body] pub struct Slice { _p: core::marker::PhantomData<u8> }
+#[verifier::external_body] pub struct UserDataContext { _p: core::marker::PhantomData<u8> }
+/// the two callees that live in other units, under the contracts proved there (unit `parents`: LayersData::from_vec,
+/// unit `validate_tilesets`: TilesetsById::validate)
+impl LayersData {
+    #[verifier::external_body]
+    pub fn from_vec(layers: Vec<LayerData>) -> (r: Result<LayersData>)
+        ensures r is Ok ==> r->Ok_0.layers@ == layers@,
+    { unimplemented!() }
+}
+/// what TilesetsById::validate establishes for one tileset (unit validate_tilesets: tileset_validated)
+pub open spec fn tileset_validated(src: Tileset<RawPixels>, dst: Tileset<Pixels>) -> bool {
+    src.pixels is Some && dst.pixels is Some && pixels_validated(src.pixels->0, dst.pixels->0) && dst.id == src.id && dst.tile_count == src.tile_count
+}
+impl TilesetsById<RawPixels> {
+    #[verifier::external_body]
+    pub fn validate(self, pixel_format: &PixelFormat, palette: Option<Arc<ColorPalette>>) -> (r: Result<TilesetsById<Pixels>>)
+        ensures r is Ok ==> (forall|k: u32| r->Ok_0.map().dom().contains(k) <==> self.map().dom().contains(k))
+            && (forall|k: u32| self.map().dom().contains(k) ==> tileset_validated(self.map()[k], #[trigger] r->Ok_0.map()[k])),
+    { unimplemented!() }
+}
+"""},
+        {"kind": "struct", "file": "parse", "name": "ParseInfo", "keep": None,
+         "rewrites": [("cel::CelsData<RawPixels>", "CelsData<RawPixels>"), ("Arc<palette::ColorPalette>", "Arc<ColorPalette>"), ("color_profile::ColorProfile", "ColorProfile")]},
+        {"kind": "struct", "file": "parse", "name": "ValidatedParseInfo", "keep": None,
+         "rewrites": [("layer::LayersData", "LayersData"), ("cel::CelsData<Pixels>", "CelsData<Pixels>"), ("Arc<palette::ColorPalette>", "Arc<ColorPalette>")]},
+        {"kind": "fn", "file": "parse", "name": "validate", "key": "ParseInfo::validate", "impl_of": "ParseInfo", "ret": "r", "rules": ["R1", "R6", "R11"],
+         "requires": ("        self.framedata.data@.len() == self.framedata.num_frames as int, self.framedata.num_frames <= 65535,\n"
+                      "        forall|f: int| 0 <= f < self.framedata.data@.len() ==> (#[trigger] self.framedata.data@[f])@.len() <= 65536,\n"
+                      "        self.layers@.len() < 0x1_0000_0000,"),
+         "ensures": ("        // C05: what a successful load establishes for every accessor (the renderer's R-pre)\n"
+                     "        r is Ok ==> ({ let v = r->Ok_0;\n"
+                     "            &&& v.layers.layers@ == self.layers@\n"
+                     "            &&& forall|k: u32| v.tilesets.map().dom().contains(k) ==> (#[trigger] v.tilesets.map()[k]).pixels is Some\n"
+                     "            &&& forall|i: int| 0 <= i < v.layers.layers@.len() ==> (v.layers.layers@[i].layer_type is Tilemap ==> v.tilesets.map().dom().contains(#[trigger] v.layers.layers@[i].layer_type->Tilemap_0))\n"
+                     "            &&& v.framedata.num_frames == self.framedata.num_frames && v.framedata.data@.len() == self.framedata.data@.len()\n"
+                     "            &&& forall|f: int| 0 <= f < self.framedata.data@.len() ==> (#[trigger] v.framedata.data@[f])@.len() == self.framedata.data@[f]@.len()\n"
+                     "                    && row_ok(&self.framedata, self.framedata.data@[f]@, v.framedata.data@[f]@, self.framedata.data@[f]@.len() as int, &v.layers, &v.tilesets)\n"
+                     "            &&& v.frame_times == self.frame_times && v.sprite_user_data == self.sprite_user_data && v.slices == self.slices && v.palette == self.palette\n"
+                     "        }),")},
     ],
 }
 
@@ -1717,5 +1781,78 @@ impl CelsData {
         G("tags", "Tag", "to_frame", "r == self.to_frame as u32,"),
         G("tags", "Tag", "animation_direction", "r == self.animation_direction,"),
         G("tags", "Tag", "user_data", "(r is Some) == (self.user_data is Some), r is Some ==> *(r->0) == self.user_data->0,"),
+    ],
+}
+
+
+# ------------------------------------------------------------------------------------------------
+# Chunk framing (C13 / C04 / C01): Chunk::read / read_all on the real text over the reader contract
+# ------------------------------------------------------------------------------------------------
+UNITS["chunks"] = {
+    "prelude_sections": ["arch", "errors", "reader", "reader_exact"],
+    "items": [
+        {"kind": "enum", "file": "parse", "name": "ChunkType", "attrs": "#[derive(Clone, Copy, PartialEq, Eq)]\n"},
+        {"kind": "const", "file": "parse", "name": "CHUNK_HEADER_SIZE"},
+        {"kind": "struct", "file": "parse", "name": "Chunk", "keep": None},
+        {"kind": "verbatim", "text": """
+/// chunk type codes the library knows (everything else is refused: C15)
+pub open spec fn chunk_code(t: ChunkType) -> int {
+    match t {
+        ChunkType::OldPalette04 => 0x0004, ChunkType::OldPalette11 => 0x0011, ChunkType::Layer => 0x2004, ChunkType::Cel => 0x2005,
+        ChunkType::CelExtra => 0x2006, ChunkType::ColorProfile => 0x2007, ChunkType::ExternalFiles => 0x2008, ChunkType::Mask => 0x2016,
+        ChunkType::Path => 0x2017, ChunkType::Tags => 0x2018, ChunkType::Palette => 0x2019, ChunkType::UserData => 0x2020,
+        ChunkType::Slice => 0x2022, ChunkType::Tileset => 0x2023,
+    }
+}
+pub open spec fn known_code(c: int) -> bool {
+    c == 0x0004 || c == 0x0011 || c == 0x2004 || c == 0x2005 || c == 0x2006 || c == 0x2007 || c == 0x2008 || c == 0x2016
+        || c == 0x2017 || c == 0x2018 || c == 0x2019 || c == 0x2020 || c == 0x2022 || c == 0x2023
+}
+/// chunk at offset o: size(4, includes this 6-byte header) type(2) payload(size - 6)
+pub open spec fn ck_size(d: Seq<u8>, o: int) -> int { le_u32(d, o) }
+/// the chunk at o is complete in the stream and fits into the `avail` bytes the frame header still grants
+pub open spec fn ck_ok(d: Seq<u8>, o: int, avail: int) -> bool {
+    o + 6 <= d.len() && known_code(le_u16(d, o + 4)) && 6 <= ck_size(d, o) <= avail && o + ck_size(d, o) <= d.len()
+}
+pub open spec fn ck_matches(c: Chunk, d: Seq<u8>, o: int) -> bool {
+    chunk_code(c.chunk_type) == le_u16(d, o + 4) && c.data@ == d.subrange(o + 6, o + ck_size(d, o))
+}
+/// offset of the k-th chunk of a frame whose first chunk starts at o0
+pub open spec fn ck_off(d: Seq<u8>, o0: int, k: int) -> int
+    decreases k,
+{
+    if k <= 0 { o0 } else { ck_off(d, o0, k - 1) + ck_size(d, ck_off(d, o0, k - 1)) }
+}
+"""},
+        {"kind": "fn", "file": "parse", "name": "parse_chunk_type", "ret": "r", "rules": ["R1", "R6", "R11"],
+         "ensures": "        r is Ok <==> known_code(chunk_type as int),\n        r is Ok ==> chunk_code(r->Ok_0) == chunk_type as int,"},
+        {"kind": "fn", "file": "parse", "name": "check_chunk_bytes", "ret": "r", "rules": ["R1", "R6", "R11"],
+         "ensures": "        r is Ok <==> (6 <= chunk_size as int && chunk_size as int <= bytes_available as int),"},
+        {"kind": "fn", "file": "parse", "name": "read", "key": "Chunk::read", "impl_of": "Chunk", "ret": "r", "rules": ["R1", "R6", "R11"],
+         "sig_rewrites": [("<R: Read>", ""), ("AseReader<R>", "AseReader")],
+         "ensures": ("        final(reader).data() == old(reader).data(),\n"
+                     "        // C13: Ok iff the WHOLE declared chunk is present (header, known type, size within the frame, all payload bytes)\n"
+                     "        r is Ok <==> ck_ok(old(reader).data(), old(reader).pos(), *old(bytes_available) as int),\n"
+                     "        r is Ok ==> ck_matches(r->Ok_0, old(reader).data(), old(reader).pos())\n"
+                     "            && final(reader).pos() == old(reader).pos() + ck_size(old(reader).data(), old(reader).pos())\n"
+                     "            && *final(bytes_available) as int == *old(bytes_available) as int - ck_size(old(reader).data(), old(reader).pos()),")},
+        {"kind": "fn", "file": "parse", "name": "read_all", "key": "Chunk::read_all", "impl_of": "Chunk", "ret": "r", "rules": ["R1", "R6", "R11"],
+         "sig_rewrites": [("<R: Read>", ""), ("AseReader<R>", "AseReader")],
+         "body_rewrites": [("for _idx in 0..count {", "for _idx in it: 0..count {")],
+         "hints": [("let mut chunks: Vec<Chunk> = Vec::new();", "        let ghost ba0 = bytes_available as int;", "before")],
+         "ensures": ("        final(reader).data() == old(reader).data(),\n"
+                     "        r is Ok ==> r->Ok_0@.len() == count,\n"
+                     "        r is Ok ==> forall|k: int| 0 <= k < count ==> ck_matches(#[trigger] r->Ok_0@[k], old(reader).data(), ck_off(old(reader).data(), old(reader).pos(), k))\n"
+                     "            && ck_off(old(reader).data(), old(reader).pos(), k) + ck_size(old(reader).data(), ck_off(old(reader).data(), old(reader).pos(), k)) <= old(reader).data().len(),\n"
+                     "        r is Ok ==> final(reader).pos() == ck_off(old(reader).data(), old(reader).pos(), count as int),\n"
+                     "        // the chunks together do not exceed what the frame header declared\n"
+                     "        r is Ok && count > 0 ==> ck_off(old(reader).data(), old(reader).pos(), count as int) - old(reader).pos() <= bytes_available,"),
+         "loops": {1: ("            invariant\n"
+                       "                reader.data() == old(reader).data(),\n"
+                       "                chunks@.len() == it.index@,\n"
+                       "                reader.pos() == ck_off(old(reader).data(), old(reader).pos(), it.index@ as int),\n"
+                       "                bytes_available as int == ba0 - (reader.pos() - old(reader).pos()), old(reader).pos() <= reader.pos(), it.index@ > 0 ==> bytes_available >= 0,\n"
+                       "                forall|k: int| 0 <= k < it.index@ ==> ck_matches(#[trigger] chunks@[k], old(reader).data(), ck_off(old(reader).data(), old(reader).pos(), k))\n"
+                       "                    && ck_off(old(reader).data(), old(reader).pos(), k) + ck_size(old(reader).data(), ck_off(old(reader).data(), old(reader).pos(), k)) <= old(reader).data().len(),")}},
     ],
 }
